@@ -7,6 +7,9 @@
      L key bidx tick                     lookup
      T valid key bidx tick mand n hintbits authbits      tryState on the current cache
      D short rc | gid n mand hintbits authbits cached check | ...   discoverUser over iterations
+     E mand n creds | ip port uid wrong | ...   end-to-end UDP: clients open sessions one after the other;
+                                         creds = credential class of user 1..n, uid = the client's user,
+                                         wrong = 1: the client uses an unregistered password
    keys are hex (128 bit), everything else decimal; bit strings and id lists use "-" for empty. *)
 open Model
 open Common
@@ -92,4 +95,20 @@ let () =
        | DNoUsers -> print_endline "NOUSERS"
        | DNoAuth -> Printf.printf "NOAUTH %s\n" rounds
        | DOutOfObs -> print_endline "OUTOFOBS")
+    | "E" :: mand :: n :: creds :: "|" :: rest ->
+      let n = int_of_string n in
+      let cred = Array.of_list (List.map int_of_string (String.split_on_char ',' creds)) in
+      let users = List.map n_of_int (range 1 n) in
+      let evs = List.map (fun blk ->
+        match blk with
+        | [ip; port; uid; wrong] ->
+          let uid = int_of_string uid and ok = (wrong = "0") in
+          let hint u = (int_of_n u = uid) and auth u = ok && cred.(int_of_n u - 1) = cred.(uid - 1) in
+          let disc = (match outcome (try_state hint auth users [] (mand = "1")) with
+                      | Some (i, _) -> Some i | None -> None) in
+          { ev_ip = n_of_dec ip; ev_port = n_of_dec port; ev_disc = disc;
+            ev_opens = (fun s -> ok && cred.(int_of_n s.us_user - 1) = cred.(uid - 1)) }
+        | _ -> failwith ("bad E block in: " ^ line)) (List.filter (fun b -> b <> []) (split_bar rest)) in
+      let (_, outs) = udp_run same_peer [] evs in
+      print_endline (String.concat " " (List.map (function Some u -> dec_of_n u | None -> "0") outs))
     | _ -> print_endline "?")
